@@ -1,20 +1,13 @@
 # -*- coding: utf-8 -*-
 #
 import datetime
+from decimal import Decimal
 from typing import List
 
 import rdflib
 
 from .consts import RDF_first, RDFS_Resource
 from .stringify import stringify_node
-
-# RDFLib 5.0+ has TOTAL_ORDER_CASTERS to force order on normally unorderable types,
-# like datetimes and times. We specifically _dont_ want that here when comparing literals.
-_FORCE_COMPARE_LITERAL_VALUE = [
-    datetime.datetime,
-    datetime.time,
-]
-
 
 def compare_blank_node(graph1: rdflib.Graph, bnode1, graph2: rdflib.Graph, bnode2, recursion=0):
     if not isinstance(graph1, rdflib.Graph) or not isinstance(graph2, rdflib.Graph):
@@ -176,19 +169,62 @@ def compare_blank_node(graph1: rdflib.Graph, bnode1, graph2: rdflib.Graph, bnode
     return return_eq(bnode1_eq)
 
 
+def _literal_operand_class(lit):
+    """
+    The class of operands of the SPARQL 1.1 operator mapping (section 17.3) a literal belongs to, or None
+    when the literal has no value that could be ordered (ill-typed lexical form, unsupported datatype).
+    Two literals are comparable with <, <=, >, >= only when their classes are equal.
+    """
+    if getattr(lit, "ill_typed", None) is True:
+        return None
+    value = lit.value
+    if value is None:
+        return None
+    if isinstance(value, bool):
+        return "boolean"
+    if isinstance(value, (int, float, Decimal)):
+        return "numeric"
+    if isinstance(value, str):
+        # simple literals and xsd:string are the same; a language tag or another
+        # string-valued datatype (xsd:anyURI, xsd:token, ...) is only comparable with itself
+        datatype = lit.datatype
+        if datatype is not None and str(datatype) == "http://www.w3.org/2001/XMLSchema#string":
+            datatype = None
+        return "string", (lit.language or "").lower(), datatype
+    if isinstance(value, datetime.datetime):
+        return "dateTime"
+    if isinstance(value, datetime.date):
+        return "date"
+    if isinstance(value, datetime.time):
+        return "time"
+    return "other", lit.datatype, type(value)
+
+
 def compare_literal(l1, l2):
-    if l1.eq(l2):
-        return 0
-    # If we are not equal, but didn't get TypeError not NotImplementedError
-    # then we know these are compatible/comparable datatypes already
-    if l1.value.__class__ in _FORCE_COMPARE_LITERAL_VALUE:
-        if l1.value == l2.value:
+    """
+    Orders two literals following the SPARQL 1.1 operator mapping: numerics by value, simple literals and
+    xsd:strings by code point, booleans, xsd:dateTime (only when both or neither have a timezone), xsd:date,
+    and other values of one and the same kind by their value.
+    Returns -1, 0 or 1. Raises TypeError when the two literals cannot be ordered; callers count that as
+    "the comparison does not hold".
+    """
+    class1 = _literal_operand_class(l1)
+    class2 = _literal_operand_class(l2)
+    if class1 is None or class2 is None or class1 != class2:
+        raise TypeError("Literals {!r} and {!r} cannot be ordered.".format(l1, l2))
+    v1 = l1.value
+    v2 = l2.value
+    try:
+        # comparing a timezone-aware with a naive datetime/time raises TypeError by itself
+        if v1 == v2:
             return 0
-        elif l1.value > l2.value:
+        if v1 > v2:
             return 1
-    elif l1 > l2:
-        return 1
-    return -1
+        if v1 < v2:
+            return -1
+    except ArithmeticError as e:  # decimal NaN
+        raise TypeError(str(e))
+    raise TypeError("Literals {!r} and {!r} are unordered.".format(l1, l2))  # float NaN
 
 
 def order_graph_literal(graph1: rdflib.Graph, lit1: rdflib.Literal, graph2: rdflib.Graph, lit2: rdflib.Literal):
@@ -196,6 +232,8 @@ def order_graph_literal(graph1: rdflib.Graph, lit1: rdflib.Literal, graph2: rdfl
         raise RuntimeError("Comparing ordered literals, graph1 and graph2 must must be RDFLib Graphs")
     if not isinstance(lit1, rdflib.Literal) or not isinstance(lit2, rdflib.Literal):
         raise RuntimeError("Comparing ordered literals, lit1 and lit2 must must be RDFLib Literals")
+    if lit1 == lit2:
+        return 0  # the same RDF term, ordered or not
     try:
         order = compare_literal(lit1, lit2)
     except (TypeError, NotImplementedError):
